@@ -8,7 +8,7 @@ import z3
 
 sys.path.insert(0, os.path.dirname(os.path.dirname(os.path.abspath(__file__))))
 from mirsym.mir import MirDB, WORK      # noqa: E402
-from mirsym.exec import (Exec, Path, Enum, Struct, Ref, Big, Opaque, Err, Slice, Unsupported, INT_TY,  # noqa: E402,F401
+from mirsym.exec import (DIVIDES, Exec, Path, Enum, Struct, Ref, Big, Opaque, Err, Slice, Unsupported, INT_TY,  # noqa: E402,F401
                          POW2, POW2_AXIOMS, pow2_lemmas, in_range, wrap, int_tdiv, floor_shr)
 from mirsym.contracts import std_contracts, compile_contracts, ret, fork2, SOME, NONE, OK, ERR, d, as_big  # noqa: E402,F401
 from mirsym.smt import Decider, model_int, model_signed, model_f64_bits  # noqa: E402,F401
@@ -87,9 +87,16 @@ class Session:
         print(f'  [{tag}] {ob.name}: paths={ob.paths} queries={ob.queries} {ob.wall_s:.1f}s {ob.reason}', flush=True)
         return ob
 
-    def decide(self, ob, conds, lemmas=(), label=''):
+    def decide(self, ob, conds, lemmas=(), label='', refine=None):
+        """refine: definitions of uninterpreted abstractions; a sat answer under the abstraction is
+        re-decided with the definitions added (unsat under the abstraction is already conclusive)"""
         ob.queries += 1
-        return self.decider.check(conds, lemmas, label=label or ob.name)
+        r, m = self.decider.check(conds, lemmas, label=label or ob.name)
+        if r == 'sat' and refine:
+            ob.queries += 1
+            self.notes.add('uninterpreted abstractions (divides / mul64) are refined with their definitions whenever a query is sat')
+            r, m = self.decider.check(list(conds) + list(refine), lemmas, label=(label or ob.name) + ' (refined)')
+        return r, m
 
 
 # ----------------------------------------------------------------------------- integer operands
